@@ -1,7 +1,7 @@
 (** Specification side of C13 (declarative / reference definitions, no proofs):
     what the Location of a redirect route has to be, written on the text of the request
     line and on the template, without the Path/RawPath bookkeeping of the implementation;
-    the reference host loop; the named finding regions. *)
+    the reference host loop. *)
 From Coq Require Import String List NArith ZArith Bool.
 From Fabio Require Import Lib.Outcome Lib.Bytes Model.Redirect.
 Import ListNotations.
@@ -103,9 +103,9 @@ Definition expected_location (t : target) (wire : str) (q : request) : str :=
      | None => norm_path (t_path t) ++ qs (t_query t)
      end.
 
-(* finding region 1: $path glued to the host and a request path that is not in net/url's
-   default encoding (so it carries an encoded reserved byte such as %2F, or a needlessly
-   encoded one) *)
+(* where the repaired finding F-C13-1 lived (fix: e4368b6): $path glued to the host and a
+   request path that is not in net/url's default encoding (so it carries an encoded reserved
+   byte such as %2F, or a needlessly encoded one).  Used only by the refutation theorem. *)
 Definition region_adjacent_raw (t : target) (q : request) : bool :=
   adjacent t && negb (is_nil (q_rawpath q)).
 
